@@ -13,7 +13,7 @@ LEVEL_TEXT = ('Bounded-exhaustive runtime check: every Linen filter form up to n
               'Filters are finite/co-finite sets, so small scope is decisive for the algebra; exploration is the honest level.')
 LEVEL_NOTE = 'Trusts the 10-line reference evaluators in vf/props/c14.py and the JAX compat aliases (vf/compat.py).'
 TECHNIQUE = 'runtime monitoring: semantic membership oracle over bounded-exhaustive filter forms on the real filter functions'
-RULE = ('Linen: every filter form of nesting depth <= D (D=2 quick, 4 thorough) over names {a,b,c} '
+RULE = ('Linen: every filter form of nesting depth <= D (D=2 quick, 4 thorough) over names {a,b,ab} (ab contains the others as substrings) '
         '(True, False, str, (), tuple/list/set/frozenset of <=2 names, DenyList(.)), all ordered pairs x '
         '{union,intersect,subtract} x 4 names (3 mentioned + 1 fresh), is_filter_empty of every form and every '
         'op result, all filter lists of length <=3 for group_collections. NNX: filter expressions of depth <= D '
@@ -31,7 +31,8 @@ MIN_EVENTS = {'quick': {'oracle:linen.op': 2000, 'oracle:linen.empty': 50, 'orac
                         'oracle:nnx.pred': 2000, 'oracle:nnx.partition': 500},
               'thorough': {'oracle:linen.op': 15000, 'oracle:nnx.partition': 2000}}
 
-NAMES = ['a', 'b', 'c', 'zz_fresh']
+# 'ab' contains 'a' and 'b' as substrings, 'zz_fresh' is mentioned by no filter: membership is exact string equality
+NAMES = ['a', 'b', 'ab', 'zz_fresh']
 
 
 # ------------------------------------------------------------------------------------------
@@ -41,9 +42,9 @@ NAMES = ['a', 'b', 'c', 'zz_fresh']
 def linen_forms(depth, wide=False):
   """Yields descriptor tuples; descriptors are turned into real objects by build()."""
   base = [('bool', True), ('bool', False), ('str', 'a'), ('str', 'b'), ('tuple', ()), ('tuple', ('a',)),
-          ('tuple', ('a', 'b')), ('list', ('b', 'c')), ('set', ('a',)), ('frozenset', ('a', 'c')), ('list', ())]
+          ('tuple', ('a', 'b')), ('list', ('b', 'ab')), ('set', ('a',)), ('frozenset', ('a', 'ab')), ('list', ()), ('str', 'ab')]
   if wide:
-    base += [('tuple', ('b', 'c')), ('list', ('a', 'b', 'c')), ('frozenset', ()), ('set', ('b', 'c')), ('str', 'c')]
+    base += [('tuple', ('b', 'ab')), ('list', ('a', 'b', 'ab')), ('frozenset', ()), ('set', ('b', 'ab')), ('tuple', ('ab',))]
   forms = list(base)
   prev = list(base)
   for _ in range(depth):
@@ -131,11 +132,11 @@ def run_linen(ctx, depth):
   # group_collections: first-match partition, over all filter lists of length <= 3 (reduced form set for len 3)
   small = [f for f in forms if _depth(f) <= min(depth, 2)]
   lists = [()] + [(x,) for x in forms] + list(itertools.product(small, repeat=2))
-  red = [f for f in small if f in (('bool', True), ('bool', False), ('str', 'a'), ('tuple', ('a', 'b')), ('list', ('b', 'c')),
-                                   ('deny', ('str', 'a')), ('deny', ('tuple', ('a', 'b'))), ('deny', ('deny', ('str', 'b'))),
+  red = [f for f in small if f in (('bool', True), ('bool', False), ('str', 'a'), ('tuple', ('a', 'b')), ('list', ('b', 'ab')), ('str', 'ab'),
+                                   ('deny', ('str', 'a')), ('deny', ('str', 'ab')), ('deny', ('tuple', ('a', 'b'))), ('deny', ('deny', ('str', 'b'))),
                                    ('deny', ('bool', False)), ('set', ('a',)))]
   lists += list(itertools.product(red, repeat=3))
-  col_sets = [NAMES, ['a', 'zz_fresh'], ['c', 'b'], []]
+  col_sets = [NAMES, ['a', 'zz_fresh'], ['ab', 'b'], []]
   for i, fl in ctx.items(lists, 'linen.group'):
     with ctx.case('linen.group', i, fl, nontrivial=len(fl) >= 1):
       cols = col_sets[i % len(col_sets)]
